@@ -104,8 +104,10 @@
            to the TSIG RR: `findTsig`, `specDecodeName`, `labelsOf`, `parseRdata`, the request prefix)
            yields the key name, RDATA fields and prefix of the model's `t` / `mw` of the same `TsigRun`;
       and then, per clause:
-      (1b) `fits` (uncompressed size ≤ limit) ⇔ the model's `TsigFits` on the scan state — selects
-           between the "nofit-*" tags (decoded facts: `C10_decoded_tsig_does_not_fit`) and the rest;
+      (1b) (closed: `C10_audit_fits`, (l), with `reservedLen_unsigned` / `reservedLen_response` /
+           `canonName_length` in Proofs/RequestFits) `fits` (uncompressed size ≤ limit) ⇔ the model's
+           `TsigFits` on the scan state — selects between the "nofit-*" tags (decoded facts:
+           `C10_decoded_tsig_does_not_fit`) and the rest;
       (1c) (closed: `C10_audit_outcome`, (k) — under `KeysOK cfg.keys`: configured key names are
            well-formed wire names in lower case, the API's `LowercaseName`; **`C10_full` needs this
            hypothesis added**: the model compares `k.name` with the lower-cased request key name octet by
@@ -144,6 +146,7 @@ import QV.Proofs.ServerAnswerDecode
 import QV.Proofs.ServerSignedNoFit
 import QV.Proofs.RequestFields
 import QV.Proofs.RequestOutcome
+import QV.Proofs.RequestFits
 import QV.Proofs.ServerSignedTable
 
 namespace QV.C10
@@ -1154,6 +1157,30 @@ theorem C10_audit_outcome (cfg : Server.Cfg) (tr : Server.Transport) (now bufLen
         some ⟨kn.labels, fieldsOf alg.labels rest, mw.toList, modelOutcome cfg.keys nowT kn alg rest mw.toList,
           Spec.ServerTsig.findKey (specKeys cfg.keys) kn.labels⟩ :=
   request_outcome cfg tr now bufLen req hbuf hpay hreq hr hv hk nowT hnow
+
+/-! ## (l) "the reply fits" (1b) -/
+
+open QV.ServerScan in
+/-- **C10 (1b): the audit's `fits` is the model's `TsigFits`.**  On the state the scan left
+    (`preTsigState`), the reply TSIG `(mode, rr)` fits iff
+    `12 + |question| + (OPT ? 11 : 0) + reservedLen mode rr ≤ limit`, the limit being 65535 over TCP and
+    the scan's UDP limit over UDP (512 without an OPT: `specTail_noedns`) — which is the audit's
+    `need ≤ limit`, since `reservedLen` is `|key name| + 10 + |algorithm name| + 16 + MAC + other`
+    (`reservedLen_unsigned`: no MAC, no other data for BADKEY / BADSIG / FORMERR; `reservedLen_response`:
+    the hash's output size, plus six octets of other data for BADTIME) and the canonical forms the audit
+    measures have the lengths of the wire forms (`canonName_length`). -/
+theorem C10_audit_fits (cfg : Cfg) (tr : Transport) (bufLen : Nat) (req : Bytes)
+    (hbuf : minBuf tr cfg.payload ≤ bufLen) (hpay : 512 ≤ cfg.payload)
+    (hr : (Spec.Server.specScanWith (catKind cfg) cfg.payload req).respond = true)
+    (mode : TsigMode) (rr : TsigRr) :
+    TsigFits (preTsigState cfg tr bufLen req) mode rr ↔
+      12 + (qOctets (Spec.Server.specScanWith (catKind cfg) cfg.payload req).question).length +
+        (if (Spec.Server.specScanWith (catKind cfg) cfg.payload req).edns then 11 else 0) +
+        reservedLen mode rr ≤
+      (match tr with
+       | .udp => (Spec.Server.specScanWith (catKind cfg) cfg.payload req).limitUdp
+       | .tcp => 65535) :=
+  tsigFits_iff cfg tr bufLen req hbuf hpay hr mode rr
 
 /-! ## non-vacuity: concrete instances of the hypotheses used above -/
 
